@@ -1454,12 +1454,26 @@ class IRGenerator:
                             *loc)
                     if isinstance(env[type_name], Environment):
                         # Handle reference to field in imported namespace.
-                        namespace_name, type_name, field_name = val.split('.', 2)
+                        namespace_name = type_name
+                        type_name, _, field_name = field_name.partition('.')
+                        if type_name not in env[namespace_name]:
+                            raise InvalidSpec(
+                                'Bad doc reference to field %s of '
+                                'unknown type %s.' %
+                                (field_name, quote(type_name)),
+                                *loc)
                         data_type_to_check = env[namespace_name][type_name]
-                    elif isinstance(env[type_name], Alias):
-                        data_type_to_check = env[type_name].data_type
                     else:
                         data_type_to_check = env[type_name]
+                    if isinstance(data_type_to_check, Alias):
+                        data_type_to_check, _ = unwrap_aliases(
+                            data_type_to_check)
+                    if not isinstance(data_type_to_check, (Struct, Union)):
+                        raise InvalidSpec(
+                            'Bad doc reference to field %s of %s, which is '
+                            'not a struct or union.' %
+                            (quote(field_name), quote(type_name)),
+                            *loc)
                     if not any(field.name == field_name
                                for field in data_type_to_check.all_fields):
                         raise InvalidSpec(
@@ -1494,7 +1508,12 @@ class IRGenerator:
                 else:
                     env_to_check = env
 
-                route_name, version = parse_route_name_and_version(val)
+                try:
+                    route_name, version = parse_route_name_and_version(val)
+                except ValueError:
+                    raise InvalidSpec(
+                        'Bad doc reference to route {}.'.format(quote(val)),
+                        *loc)
                 if route_name not in env_to_check:
                     raise InvalidSpec(
                         'Unknown doc reference to route {}.'.format(quote(route_name)), *loc)
